@@ -91,6 +91,7 @@ func cmdRand(args []string) {
 	out := fs.String("out", "", "trace file")
 	plansOut := fs.String("plans", "", "also write the plans (for replay)")
 	runBase := fs.Int("runbase", 0, "first run number")
+	fill := fs.Bool("fill", false, "fill-the-semaphore schedule: limit 2 or 3, not serial, workers held inside their function until the limit is reached")
 	fs.Parse(args)
 	r := rand.New(rand.NewSource(*seed))
 	f, err := os.Create(*out)
@@ -112,6 +113,17 @@ func cmdRand(args []string) {
 	seen := map[string]bool{}
 	for i := 0; i < *n; i++ {
 		p := dh.GenPlan(r, *maxv, *weird)
+		if *fill {
+			p.Fill = true
+			p.Serial = false
+			p.Limit = 2 + r.Intn(2)
+			p.CancelAt = -1
+			if p.Cont != nil && r.Intn(2) == 0 {
+				// a narrow first round, a wider second one
+				p.Limit = 1
+				p.Cont.Limit = 2 + r.Intn(2)
+			}
+		}
 		p.Run = *runBase + i + 1
 		p.G = fmt.Sprintf("g%d", p.Run)
 		if pw != nil {
